@@ -1,0 +1,62 @@
+//go:build verif
+
+package exec
+
+// Add-only verification hooks for property C15 (task stores and the retrying
+// remote reader). Thin wrappers over unexported identifiers; no behaviour of
+// their own.
+
+import (
+	"context"
+	"io"
+
+	"github.com/grailbio/base/retry"
+)
+
+// VerifC15NewFileStore returns a fileStore rooted at prefix.
+func VerifC15NewFileStore(prefix string) Store { return &fileStore{Prefix: prefix} }
+
+// VerifC15NewMemoryStore returns a fresh memoryStore.
+func VerifC15NewMemoryStore() Store { return newMemoryStore() }
+
+// VerifC15Stat calls s.Stat and unpacks the unexported sliceInfo it returns.
+func VerifC15Stat(ctx context.Context, s Store, task TaskName, partition int) (size, records int64, err error) {
+	info, err := s.Stat(ctx, task, partition)
+	return info.Size, info.Records, err
+}
+
+type verifC15Opener func(ctx context.Context, offset int64) (io.ReadCloser, error)
+
+func (o verifC15Opener) OpenAt(ctx context.Context, offset int64) (io.ReadCloser, error) {
+	return o(ctx, offset)
+}
+func (o verifC15Opener) String() string { return "verif-c15-opener" }
+
+// VerifC15NewRetryReader returns newRetryReader over an openerAt given as a function.
+func VerifC15NewRetryReader(ctx context.Context, open func(ctx context.Context, offset int64) (io.ReadCloser, error)) io.ReadCloser {
+	return newRetryReader(ctx, verifC15Opener(open))
+}
+
+// VerifC15RetryState exposes the bytes/retries counters of a retryReader.
+func VerifC15RetryState(r io.ReadCloser) (bytes int64, retries int) {
+	rr := r.(*retryReader)
+	return rr.bytes, rr.retries
+}
+
+// VerifC15ZeroDelayRetryPolicy replaces the package's retryPolicy by a policy
+// that permits the same number of retries (probed from the policy the source
+// declares) but never waits. It returns that number.
+func VerifC15ZeroDelayRetryPolicy() int {
+	n := 0
+	for n < 1000 {
+		if ok, _ := retryPolicy.Retry(n + 1); !ok {
+			break
+		}
+		n++
+	}
+	if n < 1 {
+		return n // nothing permitted: keep the declared policy (it never waits)
+	}
+	retryPolicy = retry.MaxRetries(nil, n)
+	return n
+}
